@@ -3,6 +3,13 @@
 import json, sys
 
 CLAIMED = {
+ "C03": dict(
+   category="model_checking",
+   text="Explicit-state BFS to closure (state hashing on canonical store + cache owner sets) over the real ObjectSet controller and the real same-cluster ObjectSetPhase controller interleaved, at pass granularity, with a workload controller that can set the status of any existing object to none / ready / not-ready / stale observedGeneration, and (one system) the user pausing/unpausing; 7 systems quick / 22 thorough = phase layouts of 2-3 phases with every local/delegated mask. On every request of every ObjectSet pass a monitor checks: a create/patch of an object (or of the ObjectSetPhase) of phase k happens only if, in what this pass read before that request, every object of every earlier phase was present and passes an independent reference prober (delegated: the phase object read was Available for its current generation); a persisted Available=False/ProbeFailure names the first failing phase in spec order.",
+   design_ref="DESIGN.md §7 C03",
+   note="Trusted: kmodel; 'found' = last answer the pass received for the key; fixed probe pair (condition on Widget, fieldsEqual on Gadget).",
+   technique="explicit-state model checking (BFS with canonical state hashing) over the real controllers, trace monitor on every API request",
+   engine="world"),
  "C17": dict(
    category="exploration",
    text="Bounded-exhaustive enumeration: 12 265 (quick) / ~95 000 (thorough) probe lists ([], [p], [p,q]; 6 selector forms x up to two probes from {condition True/False, fieldsEqual present/missing path, CEL true/false/erroring, empty probe}) are compiled by the real internal/probing.Parse and evaluated on 1 704 generated objects (generation 1/2 x 4 label sets x status absent / {} / scalar / observedGeneration absent, equal, older-or-newer, string, float x 14 shapes of status.conditions incl. malformed entries and per-condition observedGeneration x fieldsEqual operand absent/equal/different): ~21 M evaluations, each compared with a reference evaluator transcribed from the statement (success, number of failure messages = number of failing selected probes, object deep-equal before/after). Non-boolean CEL rules must be refused by Parse.",
